@@ -258,6 +258,10 @@ func (propC16) Gen(r *Rng, run uint64, tier string) *Plan {
 		}
 	}
 	p.CLI = &CLI{Now: s.Now, Argv: s.Argv(r.Sub("argv"))}
+	if dr := r.Sub("client-delay"); dr.Bool(0.15) {
+		// obtaining the API client takes a while: the clock moves on before the first request
+		p.CLI.ClientDelayMs = 1 + dr.Intn(5000)
+	}
 	if r.Bool(0.4) {
 		// the user's machine is rarely on UTC; zones with daylight saving included
 		p.CLI.TZ = Pick(r, []string{"Europe/Berlin", "America/New_York", "Australia/Lord_Howe", "Asia/Kolkata", "America/St_Johns", "Pacific/Apia"})
